@@ -18,6 +18,13 @@
  *       Px<i> Pj<i> Pl<i>  parse document i (XML / JSON / its LYB form) into an OWN tree with validation; when it parses:
  *                    print it in the three formats, re-parse the LYB, compare, XPath queries, duplicate, edit, diff, apply
  *                    diff, compare, validate, free everything. When it fails: the error records are read
+ *       Q<f><i>:<p>:<v>:<r>  parse document i (f = x / j / l) with parse options p and validation options v (decimal), when it
+ *                    parses print it as XML and JSON with printer options r; then the thread's error records are read
+ *       G<n>:<f><i>:<p>     n times: parse document i with parse options p (no validation options), free it; result of the
+ *                    first round and the number of rounds that gave something else
+ *       K<n>:<f><i>  n times: parse document i (strict, validated; meant for invalid documents), read the error records
+ *                    (code, message, path), clean them; result of the first round and the number of rounds that differ
+ *       T<v> T-      ly_temp_log_options(): this thread overrides the logging options with v (decimal) / ends the override
  *       E            read ly_err_last() and ly_err_first() of this thread now
  *       C            ly_err_clean(ctx, NULL)
  *       I<s> R<s> D<s>     lydict_insert / lydict_remove (only of a reference this thread holds) / lydict_dup
@@ -46,6 +53,9 @@
  *   leak=<not-freed warnings>:<of them: cached canonical strings of shared-tree values (case not warm)>
  *   lock=<table accesses checked>:<accesses without the table's lock held>   (dict.hash_tab under dict.lock, err_ht under
  *        lyb_hash_lock; recorded by the --wrap wrappers below)
+ *   glob=ok | <what>   process-wide and per-context state after the concurrent runs against what the case set at its start:
+ *        ly_log_options() round trip, ly_log_level(), log callback, the main thread's ly_temp_log_options(), context options
+ *        and change count
  *   pok=<parse operations that gave a valid tree and passed the whole pipeline, alone>/<parse operations>
  *   dangling=<times the H hook saw the arena reallocated between ly_err_get_rec()'s unlock and the caller's use of the
  *        record (informational)>
@@ -804,6 +814,49 @@ schema_op(struct thr *t, const char *op, char *out, size_t n)
     }
 }
 
+static __thread uint32_t tl_log_opts;
+
+/* one parse with the given options; token = rc[:hashes of the printed tree]:error records */
+static void
+parse_opts_token(struct thr *t, char fmt, int di, uint32_t popts, uint32_t vopts, uint32_t prflags, int print, char *out, size_t n)
+{
+    struct lyd_node *tree = NULL;
+    struct doc *d = &docs[di];
+    LY_ERR r;
+    char e[64], *s = NULL;
+    uint32_t h = FNV0;
+
+    if (fmt == 'l') {
+        struct ly_in *in = NULL;
+
+        if (!d->lyb) {
+            snprintf(out, n, "nolyb");
+            return;
+        }
+        ly_in_new_memory(d->lyb, &in);
+        r = lyd_parse_data(t->ctx, NULL, in, LYD_LYB, popts, vopts, &tree);
+        ly_in_free(in, 0);
+    } else {
+        r = lyd_parse_data_mem(t->ctx, d->text, (fmt == 'j') ? LYD_JSON : LYD_XML, popts, vopts, &tree);
+    }
+    if (!r && print) {
+        LY_ERR r2;
+
+        r2 = lyd_print_mem(&s, tree, LYD_XML, LYD_PRINT_WITHSIBLINGS | prflags);
+        h = fnv(h, &r2, sizeof r2);
+        h = fnvs(h, s);
+        free(s);
+        s = NULL;
+        r2 = lyd_print_mem(&s, tree, LYD_JSON, LYD_PRINT_WITHSIBLINGS | prflags);
+        h = fnv(h, &r2, sizeof r2);
+        h = fnvs(h, s);
+        free(s);
+    }
+    lyd_free_all(tree);
+    err_token(t->ctx, e, sizeof e);
+    snprintf(out, n, "%d:%08x:%s", (int)r, h, e);
+}
+
 static void *
 thread_main(void *arg)
 {
@@ -837,6 +890,50 @@ thread_main(void *arg)
             } else {
                 snprintf(out, RESLEN, "?");
             }
+            break;
+        case 'Q': {
+            unsigned di = 0, po = 0, vo = 0, pr = 0;
+
+            if ((sscanf(op + 2, "%u:%u:%u:%u", &di, &po, &vo, &pr) == 4) && ((int)di < ndocs)) {
+                parse_opts_token(t, op[1], (int)di, po, vo, pr, 1, out, RESLEN);
+            } else {
+                snprintf(out, RESLEN, "?");
+            }
+            break;
+        }
+        case 'G':
+        case 'K': {
+            unsigned cnt = 0, di = 0, po = LYD_PARSE_STRICT;
+            char f = 0, first[RESLEN], cur[RESLEN];
+            int var = 0;
+
+            if (((op[0] == 'G') ? (sscanf(op + 1, "%u:%c%u:%u", &cnt, &f, &di, &po) == 4) :
+                    (sscanf(op + 1, "%u:%c%u", &cnt, &f, &di) == 3)) && ((int)di < ndocs) && cnt) {
+                for (unsigned k = 0; k < cnt; ++k) {
+                    parse_opts_token(t, f, (int)di, po, (op[0] == 'G') ? 0 : LYD_VALIDATE_PRESENT, 0, 0, cur, sizeof cur);
+                    if (op[0] == 'K') {
+                        ly_err_clean(t->ctx, NULL);
+                    }
+                    if (!k) {
+                        strcpy(first, cur);
+                    } else if (strcmp(first, cur)) {
+                        ++var;
+                    }
+                }
+                snprintf(out, RESLEN, "%.60s*%uv%d", first, cnt, var);
+            } else {
+                snprintf(out, RESLEN, "?");
+            }
+            break;
+        }
+        case 'T':
+            if (op[1] == '-') {
+                ly_temp_log_options(NULL);
+            } else {
+                tl_log_opts = (uint32_t)atoi(op + 1);
+                ly_temp_log_options(&tl_log_opts);
+            }
+            snprintf(out, RESLEN, "t");
             break;
         case 'E':
             err_token(t->ctx, out, RESLEN);
@@ -887,6 +984,7 @@ thread_main(void *arg)
         ++t->nres;
     }
     arm_unlock = arm_zc = -1;
+    ly_temp_log_options(NULL);
     /* give everything back */
     for (int i = 0; i < t->nheld_str; ++i) {
         lydict_remove(t->ctx, t->held_ptr[i]);
@@ -1034,6 +1132,37 @@ tsan_report(void)
 /* ------------------------------------------------------------------------------------------------
  * one run of all workloads; returns 0 or a negative setup error
  * ------------------------------------------------------------------------------------------------ */
+#define CASE_LOG_OPTS (LY_LOLOG | LY_LOSTORE)
+#define CASE_LOG_LEVEL LY_LLWRN
+static char glob_bad[128];
+static uint16_t ctx_opts0, ctx_chg0;
+
+/* the process-wide state must be what the case set at its start */
+static void
+check_global_state(struct ly_ctx *ctx)
+{
+    uint32_t lo = ly_log_options(CASE_LOG_OPTS);
+    LY_LOG_LEVEL ll = ly_log_level(CASE_LOG_LEVEL);
+    uint32_t *tmp = ly_temp_log_options(NULL);
+
+    if (glob_bad[0]) {
+        return;
+    }
+    if (lo != CASE_LOG_OPTS) {
+        snprintf(glob_bad, sizeof glob_bad, "ly_log_options=0x%x(set:0x%x)", lo, (unsigned)CASE_LOG_OPTS);
+    } else if (ll != CASE_LOG_LEVEL) {
+        snprintf(glob_bad, sizeof glob_bad, "ly_log_level=%d(set:%d)", (int)ll, (int)CASE_LOG_LEVEL);
+    } else if (ly_get_log_clb() != log_cb) {
+        snprintf(glob_bad, sizeof glob_bad, "log-callback-changed");
+    } else if (tmp) {
+        snprintf(glob_bad, sizeof glob_bad, "main-thread-temp-log-options-set");
+    } else if (ctx && (ly_ctx_get_options(ctx) != ctx_opts0)) {
+        snprintf(glob_bad, sizeof glob_bad, "ctx-options=0x%x(was:0x%x)", ly_ctx_get_options(ctx), ctx_opts0);
+    } else if (ctx && (ly_ctx_get_change_count(ctx) != ctx_chg0)) {
+        snprintf(glob_bad, sizeof glob_bad, "ctx-change-count=%u(was:%u)", ly_ctx_get_change_count(ctx), ctx_chg0);
+    }
+}
+
 static long dict_base, dict_end;
 static int dict_bad;
 static int leak_attr;
@@ -1110,6 +1239,8 @@ run_concurrent(int nthr, struct thr *T, char **ops)
         return -1;
     }
     dict_base = ctx->dict.hash_tab->used;
+    ctx_opts0 = ly_ctx_get_options(ctx);
+    ctx_chg0 = ly_ctx_get_change_count(ctx);
     if ((rc = setup_shared(ctx, &g_shared))) {
         ly_ctx_destroy(ctx);
         return rc;
@@ -1135,6 +1266,7 @@ run_concurrent(int nthr, struct thr *T, char **ops)
     }
     pthread_barrier_destroy(&start_bar);
     concurrent = 0;
+    check_global_state(ctx);
 
     for (int i = 0; i < ncanon; ++i) {
         free(canon_strs[i]);
@@ -1284,6 +1416,13 @@ main(void)
         }
         shared_idx = sh;
 
+        /* the process-wide logging state of the case */
+        ly_log_options(CASE_LOG_OPTS);
+        ly_log_level(CASE_LOG_LEVEL);
+        ly_set_log_clb(log_cb);
+        ly_temp_log_options(NULL);
+        glob_bad[0] = 0;
+
         lock_checked = lock_viol = dangling = 0;
         lock_viol_where[0] = 0;
         notfreed = 0;
@@ -1369,7 +1508,7 @@ main(void)
             printf("%s dict=%ld:%ld leak=%d:%d lock=%ld:%ld%s%s dangling=%ld", diff[0] ? diff : "ok", dict_base, dict_end,
                     notfreed - alone_notfreed, leak_attr, lock_checked, lock_viol, lock_viol ? "@" : "", lock_viol_where,
                     dangling);
-            printf(" pok=%d/%d", pok, pall);
+            printf(" glob=%s pok=%d/%d", glob_bad[0] ? glob_bad : "ok", pok, pall);
             if (alone_notfreed) {
                 printf(" aloneleak=%d", alone_notfreed);
             }
